@@ -26,7 +26,7 @@ ASSUMPTIONS = [
 
 def check(repo, col, tier):
     from . import c10 as _c10
-    col.rule("R-C14-tables", "init_states evaluates the steady states at the table values of each compartment's own parameters", 3)
+    col.rule("R-C14-tables", "init_states evaluates the steady states at the table values of each compartment's own parameters", 2)
     _c10.table_values(repo, col, "R-C14-tables")
     col.rule("R-C14-fixpoint", "update_states(init_state(v)) == init_state(v) as a rational identity", 8)
     col.rule("R-C14-cover", "init_state returns every state that update_states evolves", 6)
